@@ -292,7 +292,7 @@ func runC07(c *Ctx) int {
 			}
 			cc["records_generated"] += int64(n)
 			cc["streams"]++
-			run.Eval(1)
+			run.Eval(int64(n)) // the unit of evaluations and of distinct_nontrivial is the record
 			id := fmt.Sprintf("s%d", s)
 			recsOf[id] = recs
 			batch = append(batch, c07Stream(run, cc, id, recs))
